@@ -15,11 +15,15 @@ EXTRA_ASSUMPTIONS = ["'yields exactly the intended values': the interpolated val
 EXPLANATION = ("Deductive part (data flow + template shape): in every command returned by exitExcludedRegion, disableExclusion, "
                "processLinearMoves (retraction / recovery / G92 E re-sync), _addCommands, the G10/G11 handlers and handleAtCommand, every "
                "interpolated number went through GcodeParser.formatNumber, and the text around the numbers reads -- with an independent "
-               "RS274 reader -- as one G/M code followed by distinct letters. Bounded part: formatNumber (CPython float repr + decimal) "
+               "RS274 reader -- as one G/M code followed by distinct letters. formatNumber itself: over ASSUMED contracts of the builtins it "
+               "rests on (str(float) is plain decimal or d.ddde[+-]dd text, str(int) a numeral, Decimal(t) raises unless t is a decimal "
+               "literal, format(d, 'f') has no exponent; each text denoting the same number) its result is plain decimal text denoting "
+               "exactly the argument for every finite float and every int, a string argument comes back unchanged, nothing is raised. "
+               "Bounded part (which also exercises those builtin contracts on CPython): formatNumber "
                "never yields exponent notation, keeps the exact value and is read back correctly, on the stated finite set of doubles "
                "(coverage.bounded). buildCommand on merged argument maps: deductive for 0..3 symbolic parameters (every number through "
                "formatNumber, distinct letters, each value read back exactly, None as a bare letter), bounded on random maps.")
-TECHNIQUE = "contracts (data-flow of interpolated numbers through the formatter, template tokenised by an independent reader) + bounded check of the formatter on CPython"
+TECHNIQUE = "contracts (data-flow of interpolated numbers through the formatter, template tokenised by an independent reader; formatNumber and buildCommand against assumed contracts of str/Decimal/format) + bounded check of the formatter on CPython"
 BREAKERS = [{'desc': 'exit move repeats the X letter',
   'functions': ['ExcludeRegionState.ExcludeRegionState.exitExcludedRegion'],
   'module': 'ExcludeRegionState',
